@@ -382,12 +382,20 @@ def B.pubAck (b : B) (c : Cli) (r : PubReq) (matched : Bool) : B :=
     | none => b
   else b
 
+/-- a retransmitted QoS 2 PUBLISH (v5) gives back the receive-quota unit `readLoop` took for it -/
+def B.pubDupQuota (b : B) (c : Cli) (r : PubReq) (dupl : Bool) : B :=
+  if dupl && c.v == 5 then
+    (match b.cli? r.conn with
+     | some c' => b.setCli { c' with quota := min (c'.quota + 1) b.cfg.recvMax }
+     | none => b)
+  else b
+
 /-- an accepted PUBLISH (`r.topic` resolved, `c` and `s` the connection and its session): inbound QoS 2 id store,
-    retained store, `deliverMessage` unless it is a QoS 2 duplicate, acknowledgement -/
+    quota give-back for a duplicate, retained store, `deliverMessage` unless it is a QoS 2 duplicate, acknowledgement -/
 def B.publishTail (b : B) (c : Cli) (r : PubReq) (s : Sess) : B :=
   let dupl := r.qos == 2 && s.unack.contains r.pid
   let s := if r.qos == 2 && !dupl then { s with unack := s.unack ++ [r.pid] } else s
-  let b := (b.setSess s).pubRetain r dupl
+  let b := ((b.setSess s).pubDupQuota c r dupl).pubRetain r dupl
   let bm := if !dupl then b.deliverMsg c.cid (pubMsg r) r.hints r.rapHint else (b, false)
   bm.1.pubAck c r bm.2
 
@@ -535,6 +543,12 @@ theorem publish_accepted (b : B) (r : PubReq) (c : Cli) (s : Sess)
   rw [hres']
   simp only [hss]
 
+theorem pubDupQuota_out (b : B) (c : Cli) (r : PubReq) (dupl : Bool) : (b.pubDupQuota c r dupl).out = b.out := by
+  unfold B.pubDupQuota
+  split
+  · split <;> rfl
+  · rfl
+
 theorem pubRetain_out (b : B) (r : PubReq) (dupl : Bool) : (b.pubRetain r dupl).out = b.out := by
   unfold B.pubRetain
   split
@@ -573,8 +587,8 @@ theorem publishTail_out (b : B) (c : Cli) (r : PubReq) (s : Sess) :
   congr 1
   simp only [bm]
   split
-  · rw [deliverMsg_out]; simp only [b1]; rw [pubRetain_out]; rfl
-  · simp only [b1]; rw [pubRetain_out]; rfl
+  · rw [deliverMsg_out]; simp only [b1]; rw [pubRetain_out, pubDupQuota_out]; rfl
+  · simp only [b1]; rw [pubRetain_out, pubDupQuota_out]; rfl
 
 theorem publish_ack (b : B) (r : PubReq) (c : Cli) (s : Sess)
     (hc : b.cli? r.conn = some c) (hs : b.sess? c.cid = some s)
